@@ -751,6 +751,12 @@ func (x *VC) resolveModifies(sel string, env *SEnv) []*Comp {
 		if c, ok := x.comps["G|"+key]; ok {
 			return []*Comp{c}
 		}
+		if key == "chan.sent" {
+			return []*Comp{x.comp("G|chan.sent", "Int", "Int")}
+		}
+		if strings.HasPrefix(key, "spawned:") {
+			return []*Comp{x.comp("G|"+key, "", "Int")}
+		}
 		return []*Comp{x.ghostGlobal(key)}
 	}
 	if strings.HasPrefix(sel, "*") { // pointer-to-scalar component: *T
@@ -829,12 +835,23 @@ func returnsOnlyLogger(sig *types.Signature) bool {
 
 func isStringer(f *ssa.Function) bool {
 	sig := f.Signature
-	if sig.Recv() == nil || sig.Params().Len() != 0 || sig.Results().Len() != 1 {
+	if sig.Recv() == nil || sig.Results().Len() != 1 {
 		return false
 	}
 	if b, ok := sig.Results().At(0).Type().Underlying().(*types.Basic); !ok || b.Kind() != types.String {
 		return false
 	}
-	n := f.Name()
-	return n == "String" || n == "Error" || n == "GoString"
+	switch f.Name() {
+	case "String", "Error", "GoString":
+		return sig.Params().Len() == 0
+	case "ToString", "ToShortString", "GetSummary", "GetDatatypeTag":
+		// log-text renderers; the ones of Timestamp/OperationID/CheckPoint are small and are still inlined
+		if f.Pkg != nil && f.Pkg.Pkg.Path() == repoPrefix+"client/pkg/model" {
+			if r := sig.Recv().Type().String(); strings.HasSuffix(r, ".Timestamp") || strings.HasSuffix(r, ".OperationID") || strings.HasSuffix(r, ".CheckPoint") {
+				return false
+			}
+		}
+		return true
+	}
+	return false
 }
